@@ -39,7 +39,7 @@ Running == [k |-> "running"]
 (******************************* scenarios *******************************)
 ViewOpts ==
     [opt : {"precision"}, val : {"0", "17", "18", "100", "1000", "65535", "65536", "70000"}]
-    \cup [opt : {"marginalize-remove", "marginalize-keep"}, val : {"0", "1", "0,0", "0,1", "1,0", "7", "0,1,2,3", "4294967296"}]
+    \cup [opt : {"marginalize-remove", "marginalize-keep"}, val : {"0", "1", "0,0", "0,1", "1,0", "7", "0,1,2,3", "4294967296", "0,1,0", "2,0,2", "1,0,1,0", "3,2,1", "2,1"}]
     \cup [opt : {"project-shape"}, val : {"0", "1", "2", "1,1", "2,2", "0,0", "99", "3,3,3", "18446744073709551615"}]
     \cup [opt : {"project-individuals"}, val : {"0", "1", "0,0", "5", "9223372036854775807"}]
     \cup [opt : {"mask-monomorphic", "normalize", "none"}, val : {""}]
